@@ -95,6 +95,26 @@ def one_project(job):
     for kind, a in vs:
         q = dict(p0, args=a)
         out.append((kind, a, projrun.run_impl(q)))
+    loc = [a for kind, a in vs if kind == "local"]
+    if len(loc) >= 2 and rng.random() < 0.6:
+        # local mode from directory X, then Y, then X again in ONE build directory, nothing edited in between: what the third run
+        # leaves must be X's builds again (the local ninja file is shared by all start directories)
+        x, y = rng.sample(loc, 2)
+        try:
+            rs = projrun.run_impl_seq(p0, [x, y, x])
+            v = warm_view(rs[2], r0)
+            v["first_tuples"] = sorted((b["builder"], b["app"], b.get("app_context") or "") for b in rs[0].get("dump", []) if b["decision"] == "built")
+            out.append(("localagain", x, v))
+        except ninjaparse.ParseError:
+            pass
+    if loc and rng.random() < 0.5:
+        # an explicit relative --build-dir is a path below the project root wherever laze is started: local mode from a
+        # sub-directory writes the same statements as global mode with the same --build-dir
+        rb = projrun.run_impl(dict(p0, args=dict(p0["args"], build_dir="out")))
+        a = dict(rng.choice(loc), build_dir="out")
+        r = projrun.run_impl(dict(p0, args=a))
+        r["global_same_build_dir"] = rb
+        out.append(("localB", a, r))
     return (p0, r0, out, n)
 
 
@@ -124,6 +144,30 @@ def judge(chk, p0, r0, vs, n):
         kind = kind.split("@")[0]
         chk.evaluations += 1
         st = projrun.impl_status(r)
+        if kind == "localB":
+            rb = r["global_same_build_dir"]
+            if projrun.impl_status(rb) != "ok" or st != "ok":
+                continue
+            if r["ninja"] is None:
+                chk.fail_oracle("indep:build-dir-depends-on-start-dir", f"{a}: no out/build-local.ninja below the project root", {"project": p0, "args": a})
+                return
+            try:
+                cb, cl = closures(rb), closures(r)
+            except ninjaparse.ParseError:
+                continue
+            for k, stmts in cl.items():
+                if stmts is not None and cb.get(k) is not None and stmts != cb[k]:
+                    chk.fail_oracle("indep:build-dir-depends-on-start-dir", f"{a}: statements of {k} differ from the global run with the same --build-dir",
+                                    {"project": p0, "args": a, "build": list(k)})
+                    return
+            continue
+        if kind == "localagain":
+            if st == "ok" and tuples(r) != r["first_tuples"]:
+                chk.fail_oracle("indep:local-depends-on-earlier-run", f"local run from {a.get('local')!r} after a run from another directory leaves "
+                                f"{tuples(r)} in the local ninja file; the same run before it configured {r['first_tuples']}", {"project": p0, "args": a})
+                return
+            if st != "ok":
+                continue
         if st != "ok":
             # a restricted run may only fail if the unrestricted one did (it did not)
             if kind == "local" and "not defined in the current directory" in (r["stderr"] or ""):
@@ -182,7 +226,7 @@ def judge(chk, p0, r0, vs, n):
             chk.fail_oracle("indep:hash-partitions-not-covering", f"union of hash:k/{n} partitions {sorted(flat)} != unpartitioned {t0_part}", {"project": p0})
             return
     # local runs: union over directories = all apps
-    loc = [tuples(r) for kind, a, r in vs if kind == "local" and projrun.impl_status(r) == "ok"]
+    loc = [tuples(r) for kind, a, r in vs if kind == "local" and projrun.impl_status(r) == "ok"]      # (the cold ones)
     if loc and sorted(t for l in loc for t in l) != t0:
         chk.fail_oracle("indep:local-not-covering", f"union of local runs {sorted(t for l in loc for t in l)} != global {t0}", {"project": p0})
     if nt and len(c0) >= 2:
